@@ -2,6 +2,7 @@
 (* evaluates the layout theorems (ASSUME) and writes the case spaces selected by WHAT:   *)
 (*  layout  every layout (C14)                                                          *)
 (*  memo    sequences of property reads / location changes / copies (C14)               *)
+(*  memo2   the same on two objects: a grid and its copy, "swap" switches between them (C14) *)
 (*  canon   layouts with the field "token of my location" (C15)                         *)
 (*  compat  layout pairs of equal and different geometry (C15)                          *)
 (*  link    layout pairs of the same geometry: producer field and masks (C15)           *)
@@ -14,12 +15,16 @@ ASSUME \A L1 \in Layouts({"uniform"}, {<<2, 3>>, <<3>>}), L2 \in CompatLayouts :
 MemoOps == {"shape", "size", "npoints", "cells", "points", "copy"}
 MemoSeqs == UNION {[1..n -> MemoOps] : n \in 2..4}
 MemoLayouts == {L \in Layouts({"uniform", "rect"}, {<<3, 2>>, <<2, 3, 2>>}) : L.order = "F" /\ (\A a \in 1..Len(L.dims) : L.inc[a])}
+Memo2Ops == {"shape", "size", "cells", "points", "swap"}
+Memo2Seqs == {<<"copy">> \o s : s \in [1..4 -> Memo2Ops]}
+Memo2Layouts == {L \in MemoLayouts : L.dims = <<3, 2>>}
 GoodLink(a, b) == a.dims = b.dims /\ (a.kind = "esri" => b.loc = "cells") /\ (b.kind = "esri" => a.loc = "cells")
                   /\ (a.kind = "esri" \/ b.kind = "esri" => a.loc = b.loc)
 
 Out ==
   CASE IOEnv.WHAT = "layout" -> SetToSeq({[what |-> "layout", L |-> L] : L \in AllLayouts \cup Esri})
     [] IOEnv.WHAT = "memo"   -> SetToSeq({[what |-> "memo", L |-> L, ops |-> s] : L \in MemoLayouts, s \in MemoSeqs})
+    [] IOEnv.WHAT = "memo2"  -> SetToSeq({[what |-> "memo", L |-> L, ops |-> s] : L \in Memo2Layouts, s \in Memo2Seqs})
     [] IOEnv.WHAT = "canon"  -> SetToSeq({[what |-> "canon", L |-> L, field |-> FieldC(L)] : L \in PairLayouts \cup Layouts({"rect"}, {<<3, 2>>, <<2, 2, 3>>})})
     [] IOEnv.WHAT = "compat" -> SetToSeq({[what |-> "compat", src |-> a, dst |-> b] : a \in Layouts({"uniform"}, {<<2, 3>>, <<3>>}), b \in CompatLayouts}
                                           \cup {[what |-> "compat", src |-> a, dst |-> b] :
